@@ -89,6 +89,8 @@ fn families(n: usize, k: usize) -> Vec<(String, Vec<u64>)> {
         let mut d = vec![1u64; n];
         d[0] = 100 * n as u64;
         v.push(("one-dominant".into(), d));
+        // lamport-scale stakes (total ~ 4e17, as on a production network; products with k overflow u64)
+        v.push(("lamports".into(), (0..n).map(|i| 400_000_000_000_000_000 / (n as u64) + 1_000_003 * (i as u64 % 7)).collect()));
         // stakes straddling i/k: total = k * 100, validator stakes just below / at / above multiples of 100
         let mut s: Vec<u64> = (0..n).map(|i| 100 * (1 + (i as u64 % 3)) + [0u64, 1, 99][i % 3]).collect();
         let total: u64 = s.iter().sum();
